@@ -164,7 +164,7 @@ func run(c *core.Ctx) int {
 	handle(cases, res, "plain")
 	handle(raceCases, raceRes, "race")
 	// every failure family must have been injected, at depth 0 and nested
-	for _, fam := range []string{"trap", "stack-overflow", "guest-calls-host-panic", "host-panic", "exit", "host-exit", "host-panic-after-reentry", "shared-atomic-oob", "shared-atomic-unaligned"} {
+	for _, fam := range []string{"trap", "stack-overflow", "guest-calls-host-panic", "host-panic", "exit", "host-exit", "host-panic-after-reentry", "shared-atomic-oob", "shared-atomic-unaligned", "table-lookup"} {
 		if c.Counter("failures_"+fam) == 0 {
 			c.Inconclusive("failure-family-never-injected:" + fam)
 		}
